@@ -3,34 +3,43 @@ From Coq Require Import List Bool Arith.
 Import ListNotations.
 Require Import PonyV.Model.C19Txn PonyV.Model.C17Pg.
 
-Definition pinv (s : pst) : bool :=
+Definition pinv (sh : shape) (s : pst) : bool :=
   negb (g_bad s) &&
   (if g_intx s then negb (g_ac s) && g_has s && g_imm s && g_reg s else true) &&
   (if g_dtx s then g_intx s else true) &&
-  (if g_has s then g_reg s else negb (g_dtx s)) &&
-  (if g_reg s then true else negb (g_has s) && negb (g_intx s)).
-Definition PInv (s : pst) : Prop := pinv s = true /\ pg_writes_ok (g_trace s) = true.
+  (if g_has s then g_reg s && (g_imm s || g_ac s) else negb (g_dtx s)) &&
+  (if g_reg s then (if shape_imm sh then g_imm s else true) else negb (g_has s) && negb (g_intx s)).
+Definition PInv (sh : shape) (s : pst) : Prop := pinv sh s = true /\ pg_writes_ok (g_trace s) = true.
 
 Ltac pcrunch :=
   intros [h a d r i x b tr] [Hi Hw]; unfold PInv, pinv in *; cbn in *;
   destruct h, a, d, r, i, x, b; cbn in *; try discriminate; rewrite ?Hw; auto.
 
-Lemma pinv_op : forall sh o s, PInv s -> PInv (pg_op sh o s).
-Proof. intros sh o. destruct sh, o; pcrunch. Show. Qed.
-Lemma pinv_body : forall sh body s, PInv s -> PInv (fold_left (fun a o => pg_op sh o a) body s).
+Lemma pinv_op : forall sh o s, PInv sh s -> PInv sh (pg_op sh o s).
+Proof. intros sh o. destruct sh, o; pcrunch. Qed.
+Lemma pinv_body : forall sh body s, PInv sh s -> PInv sh (fold_left (fun a o => pg_op sh o a) body s).
 Proof. intros sh body. induction body as [|o b IH]; intros s H; cbn; auto. apply IH. apply pinv_op. exact H. Qed.
-Lemma pinv_exit : forall sh fail s, PInv s ->
-  PInv (if fail then pg_rollback sh s else let s2 := pg_commit s in if g_reg s2 then pg_close sh false s2 else s2).
-Proof. intros sh fail. destruct sh, fail; pcrunch. Qed.
-Lemma pinv_session : forall x s, PInv s -> PInv (pg_session s x).
-Proof. intros [[sh body] fail] s H. unfold pg_session. apply pinv_exit. apply pinv_body. exact H. Qed.
-Lemma pinv_run : forall l s, PInv s -> PInv (pg_run l s).
-Proof. induction l as [|x l IH]; intros s H; cbn; auto. apply IH. apply pinv_session. exact H. Qed.
-Lemma pinv_init : forall ac, PInv (pg_init ac).
-Proof. intros []; split; reflexivity. Qed.
+(* after the session no cache is registered, so the invariant holds for whatever shape comes next *)
+Lemma pinv_exit : forall sh sh' (fl : bool) s, PInv sh s ->
+  PInv sh' (if fl then pg_rollback sh s else let s2 := pg_commit s in if g_reg s2 then pg_close sh false s2 else s2).
+Proof. intros sh sh' fl. destruct sh, sh', fl; pcrunch. Qed.
+Lemma pinv_idle : forall sh sh' s, g_reg s = false -> PInv sh s -> PInv sh' s.
+Proof. intros sh sh'. destruct sh, sh'; intros [h a d r i x b tr] Hr; cbn in Hr; subst r; pcrunch. Qed.
+Lemma pinv_session : forall sh' x s, PInv (fst (fst x)) s -> PInv sh' (pg_session s x).
+Proof. intros sh' [[sh body] fl] s H. unfold pg_session. apply pinv_exit. apply pinv_body. exact H. Qed.
+
+Definition next_shape (l : list (shape * list pop * bool)) : shape := match l with [] => ShOpt | x :: _ => fst (fst x) end.
+Lemma pinv_run : forall l s, PInv (next_shape l) s -> exists sh, PInv sh (pg_run l s).
+Proof.
+  induction l as [|x l IH]; intros s H; cbn.
+  - exists ShOpt. exact H.
+  - apply IH. apply pinv_session. exact H.
+Qed.
+Lemma pinv_init : forall sh ac, PInv sh (pg_init ac).
+Proof. intros [] []; split; reflexivity. Qed.
 
 Lemma pg_writes_lemma : forall l ac, pg_writes_ok (g_trace (pg_run l (pg_init ac))) = true /\ g_bad (pg_run l (pg_init ac)) = false.
 Proof.
-  intros l ac. destruct (pinv_run l _ (pinv_init ac)) as (Hi & Hw). split; auto.
+  intros l ac. destruct (pinv_run l _ (pinv_init (next_shape l) ac)) as (sh & Hi & Hw). split; auto.
   unfold pinv in Hi. destruct (g_bad (pg_run l (pg_init ac))); auto.
 Qed.
